@@ -106,7 +106,7 @@ func TestC01SM(t *testing.T) {
 		Rule: "history of 10-45 generated actions (reconciles of the EDS and of each replica set in any order, kubelet/scheduler steps, pod failures incl. Failed/Unknown phases, duplicate pods, node add/remove/relabel/taint, template edits incl. eligibility-changing templates, canary strategy) over 1-6 nodes, every replica-set sync also run on store forks; monitors create-eligible, create-once, dup-resolution, ineligible-cleanup, unknown-untouched; non-trivial = at least two replica sets synced against the store and a sync read a node with several pods, a pod on an absent/unfit node, or a Failed/Unknown pod; distinct by action trace",
 		Cfg: WorldCfg{MinNodes: 1, MaxNodes: 6, Letters: "ABDEFGH", Strategy: gen.StrategyOpts{Canary: 1}, Forks: 2, Affinity: 2, Warmup: 5, StartEdit: 1,
 			Monitors: mon.Of("create-eligible", "create-once", "dup-resolution", "ineligible-cleanup", "unknown-untouched", "no-panic"),
-			Weights:  weights(defaultWeights(), map[string]int{"pod-dup": 3, "pod-failed": 2, "pod-unknown": 2, "node-relabel": 2, "node-taint": 2, "node-remove": 2, "annotation": 1, "node-annotate": 2})},
+			Weights:  weights(defaultWeights(), map[string]int{"pod-dup": 3, "pod-failed": 2, "pod-unknown": 2, "node-relabel": 2, "node-taint": 2, "node-remove": 2, "annotation": 1, "node-annotate": 2, "edit-strategy": 2})},
 		MinSteps: 15, MaxSteps: 70,
 		NonTrivial: func(w *World) bool {
 			f := w.Facts
@@ -123,7 +123,7 @@ func TestC04SM(t *testing.T) {
 		Rule: "history biased to canaries: canary strategy always present (replicas int or percent), template edits incl. a second edit while a canary runs and eligibility-changing templates, node churn, pause/unpause/valid annotations, every interleaving of the EDS reconcile with active/canary/leftover syncs (each also on store forks); monitors canary-confinement, canary-list-growth, canary-label; non-trivial = canary-role syncs >= 3, >= 2 different replica sets synced and >= 1 pod created while status.canary was set; distinct by action trace",
 		Cfg: WorldCfg{MinNodes: 2, MaxNodes: 6, Letters: "ABCDEFGH", Strategy: gen.StrategyOpts{Canary: 2}, Forks: 2, Affinity: 2, Warmup: 5, StartEdit: 2,
 			Monitors: mon.Of("canary-confinement", "canary-list-growth", "canary-label", "canary-verdict", "no-panic"),
-			Weights:  weights(defaultWeights(), map[string]int{"edit-template": 4, "round": 6, "rec-ers": 12, "canary-valid": 1, "pod-dup": 1})},
+			Weights:  weights(defaultWeights(), map[string]int{"edit-template": 4, "round": 6, "rec-ers": 12, "canary-valid": 1, "pod-dup": 1, "edit-strategy": 2})},
 		MinSteps: 15, MaxSteps: 70,
 		NonTrivial: func(w *World) bool { return w.CanarySyncs >= 3 && len(w.RSSeen) >= 2 && w.CanaryCreates >= 1 },
 	})
@@ -155,7 +155,7 @@ func TestC09SM(t *testing.T) {
 		Rule: "history with reconcile requests arriving at generated instants (sub-second to minutes apart) over 2-8 nodes with node additions and template edits; monitor rate (creates per sync <= slow-start bound; write-issuing syncs of one replica set >= reconcileFrequency-1s apart when the first status write succeeded) and budget; non-trivial = a sync read more missing pods than the bound allows (cap binding) or a sync request arrived less than reconcileFrequency after the previous one; distinct by action trace",
 		Cfg: WorldCfg{MinNodes: 2, MaxNodes: 8, Letters: "AB", Strategy: gen.StrategyOpts{Canary: 0}, Forks: 1, Affinity: 2, PlainNodes: true, Warmup: 2,
 			Monitors: mon.Of("rate", "budget", "condition-clock", "no-panic"),
-			Weights:  map[string]int{"rec-eds": 6, "rec-ers": 20, "advance": 12, "kubelet": 5, "pod-start": 2, "edit-template": 2, "node-add": 3, "round": 2, "pod-finalize": 2, "pod-unready": 1, "annotation": 2}},
+			Weights:  map[string]int{"rec-eds": 6, "rec-ers": 20, "advance": 12, "kubelet": 5, "pod-start": 2, "edit-template": 2, "node-add": 3, "round": 2, "pod-finalize": 2, "pod-unready": 1, "annotation": 2, "edit-strategy": 1}},
 		MinSteps: 15, MaxSteps: 70,
 		NonTrivial: func(w *World) bool { return w.Facts["creation-cap-binding"] > 0 || w.CloseSyncs > 0 },
 	})
@@ -288,7 +288,7 @@ func TestC15SM(t *testing.T) {
 		Rule: "history with a canary strategy (replicas int or percent) and node deletion, relabelling and tainting while the canary runs; monitors canary-nodes-valid and canary-list-growth after every EDS reconcile; non-trivial = a canary was in progress during >= 2 EDS reconciles and node churn happened; distinct by action trace",
 		Cfg: WorldCfg{MinNodes: 2, MaxNodes: 7, Letters: "ABDGH", Strategy: gen.StrategyOpts{Canary: 2}, Forks: 0, Affinity: 2, Warmup: 4, StartEdit: 2,
 			Monitors: mon.Of("canary-nodes-valid", "canary-list-growth", "no-panic"),
-			Weights:  weights(defaultWeights(), map[string]int{"rec-eds": 14, "node-remove": 3, "node-relabel": 3, "node-taint": 3, "node-add": 2, "edit-template": 4})},
+			Weights:  weights(defaultWeights(), map[string]int{"rec-eds": 14, "node-remove": 3, "node-relabel": 3, "node-taint": 3, "node-add": 2, "edit-template": 4, "edit-strategy": 3})},
 		MinSteps: 12, MaxSteps: 60,
 		NonTrivial: func(w *World) bool { return w.CanarySyncs >= 1 && w.NodeChurn > 0 },
 	})
@@ -318,11 +318,24 @@ func (w *World) stabilise(label string) {
 	w.C.Faults = nil
 	w.C.RestartControllers()
 	for _, k := range w.EDS {
+		id := k.Namespace + "/" + k.Name
 		_ = w.C.EditEDS(k.Namespace, k.Name, func(e *edsv1.ExtendedDaemonSet) {
 			for _, a := range annotationKeys {
+				// the user takes back the pauses they asked for. A canary pause or unpause written before a reconcile
+				// that found no canary in progress is not theirs to remove: the controller removes the canary
+				// annotations when a canary is over, and the user relies on that
+				if at, ok := w.annSetAt[id+"/"+a]; ok && (a == oracle.AnnCanaryPaused || a == oracle.AnnCanaryUnpaused) && at < w.idleSeq[id] {
+					if _, there := e.Annotations[a]; there {
+						w.C.Tracef("annotation %s=%s predates the end of the last canary: left to the controller", a, e.Annotations[a])
+						w.Facts["stale-canary-annotation-left"]++
+					}
+					continue
+				}
 				delete(e.Annotations, a)
 			}
-			delete(e.Annotations, oracle.AnnCanaryReason)
+			if _, kept := e.Annotations[oracle.AnnCanaryPaused]; !kept {
+				delete(e.Annotations, oracle.AnnCanaryReason)
+			}
 		})
 	}
 	w.C.Tracef("pause/freeze annotations removed")
